@@ -6,7 +6,8 @@ use crate::engine::{Ctx, SplitMix64, Verdict, B};
 use crate::gen;
 use crate::rec::*;
 use crate::refxml;
-use crate::sources::cuts_from_mask;
+use crate::sources::{block_on, cuts_from_mask, ChunkedAsync, ChunkedBufRead};
+use quick_xml::reader::Reader;
 use proptest::prelude::*;
 use serde::{Deserialize, Serialize};
 use serde_json::Value;
@@ -28,7 +29,7 @@ pub fn info() -> PropInfo {
         id: "C02",
         run,
         replay,
-        rule: "cases = (input, configuration, cut set, pending pattern, buffer policy). The record sequences (event or error, buffer_position, error_position after every call, up to and including the calls after the end) of read_event on the slice, read_event_into on the whole slice, read_event_into over the chunked BufRead and read_event_into_async over the chunked AsyncBufRead with the pending pattern must be identical. All 2^(n-1) cut sets for every enumerated string; single cuts, cut pairs, fixed piece sizes and random cut sets for longer inputs. Non-trivial = at least one cut falls strictly inside a markup construct. Two further enumerations vary SIZE and OFFSET: fourteen construct kinds (text, long name, quoted value with '>', many attributes, blanks inside tags, comment / CDATA / PI bodies with near-terminators, DOCTYPE with nested brackets, blank runs around text, reference runs, declaration, deep nesting) with an inner length 0..=70 placed after a prefix of 0..=130 bytes, and large inputs whose variable part is 255..70 001 bytes long (block-wise scanners, buffer growth, positions beyond 255 / 65 535, default BufReader capacity).",
+        rule: "cases = (input, configuration, cut set, pending pattern, buffer policy). The record sequences (event or error, buffer_position, error_position after every call, up to and including the calls after the end) of read_event on the slice, read_event_into on the whole slice, read_event_into over the chunked BufRead and read_event_into_async over the chunked AsyncBufRead with the pending pattern must be identical. All 2^(n-1) cut sets for every enumerated string; single cuts, cut pairs, fixed piece sizes and random cut sets for longer inputs. Non-trivial = at least one cut falls strictly inside a markup construct. Two further enumerations vary SIZE and OFFSET: fourteen construct kinds (text, long name, quoted value with '>', many attributes, blanks inside tags, comment / CDATA / PI bodies with near-terminators, DOCTYPE with nested brackets, blank runs around text, reference runs, declaration, deep nesting) with an inner length 0..=70 placed after a prefix of 0..=130 bytes, and large inputs whose variable part is 255..70 001 bytes long (block-wise scanners, buffer growth, positions beyond 255 / 65 535, default BufReader capacity). A further stage interleaves RAW reads through Reader::stream() with the events (read_exact of 1..9 bytes, read_until(b'>') through the BufRead half, read_to_end; the sync and the async implementations): the bytes obtained, the positions after the raw read and every later record must be the same for the slice, the chunked BufRead and the chunked AsyncBufRead.",
         assumptions: &[
             "when the input starts with (a prefix of) a BOM or a UTF-16 signature the first piece is at least 4 bytes (the exception written into the property)",
             "the harness executor polls single-threaded; every Pending is preceded by a wake-up",
@@ -107,6 +108,146 @@ pub fn check(c: &Case) -> Verdict {
     }
     v.classes.sort();
     v.classes.dedup();
+    if c.pend.iter().any(|p| *p > 0) {
+        v.classes.push("async-with-pending");
+    }
+    v
+}
+
+
+// ---------------------------------------------------------------------------------------------
+// raw reads through `Reader::stream()` between events: the bytes obtained, the positions after the
+// raw read and everything read afterwards must not depend on the source type or the chunking
+
+#[derive(Clone, Debug, Serialize, Deserialize, PartialEq)]
+pub struct RawCase {
+    pub input: B,
+    pub cfg: u8,
+    pub cuts: Vec<usize>,
+    pub pend: Vec<u8>,
+    /// (after read call number k (>= 1), byte count 1..=9, method: 0 read_exact, 1 read_until(b'>')
+    /// through the BufRead half, 2 read_to_end)
+    pub raws: Vec<(u8, u8, u8)>,
+}
+
+fn raw_rec(bytes: &[u8], ok: bool, pos: u64, err_pos: u64) -> Rec {
+    Rec { ev: Ev::Other(format!("raw read ok={} bytes={}", ok, B::show(bytes))), pos, err_pos }
+}
+
+macro_rules! drive_raw {
+    ($r:ident, $len:expr, $raws:expr, $read:expr, $exact:expr, $until:expr, $all:expr, $n:ident, $v:ident) => {{
+        let mut out: Vec<Rec> = vec![];
+        let mut extra = 0;
+        let mut calls = 0usize;
+        for _ in 0..call_bound($len) + EXTRA_CALLS {
+            let ev = $read;
+            calls += 1;
+            let done = matches!(ev, Ev::Eof) || ev.is_fatal();
+            out.push(Rec { ev, pos: $r.buffer_position(), err_pos: $r.error_position() });
+            if done || extra > 0 {
+                extra += 1;
+                if extra > EXTRA_CALLS {
+                    break;
+                }
+                continue;
+            }
+            for (at, cnt, how) in $raws.iter() {
+                if *at as usize == calls {
+                    let $n = 1 + (*cnt as usize % 9);
+                    let mut $v: Vec<u8> = vec![];
+                    let ok: bool = match how % 3 {
+                        0 => {
+                            $v = vec![0u8; $n];
+                            let ok = $exact;
+                            if !ok {
+                                // what the receiver holds after a failed read_exact is unspecified
+                                $v.clear();
+                            }
+                            ok
+                        }
+                        1 => $until,
+                        _ => $all,
+                    };
+                    out.push(raw_rec(&$v, ok, $r.buffer_position(), $r.error_position()));
+                }
+            }
+        }
+        out
+    }};
+}
+
+pub fn check_raw(c: &RawCase) -> Verdict {
+    use tokio::io::{AsyncBufReadExt, AsyncReadExt};
+    let data = &c.input.0;
+    let len = data.len();
+    let cuts = normalise_cuts(data, &c.cuts);
+    let base = {
+        let mut r = Reader::from_reader(&data[..]);
+        apply_cfg(r.config_mut(), c.cfg);
+        drive_raw!(r, len, c.raws, ev_of(&r.read_event()), std::io::Read::read_exact(&mut r.stream(), &mut v).is_ok(), std::io::BufRead::read_until(&mut r.stream(), b'>', &mut v).is_ok(), std::io::Read::read_to_end(&mut r.stream(), &mut v).is_ok(), n, v)
+    };
+    let chunked = {
+        let mut r = Reader::from_reader(ChunkedBufRead::new(data, cuts.clone()));
+        apply_cfg(r.config_mut(), c.cfg);
+        let mut buf = Vec::new();
+        drive_raw!(
+            r,
+            len,
+            c.raws,
+            {
+                buf.clear();
+                ev_of(&r.read_event_into(&mut buf))
+            },
+            std::io::Read::read_exact(&mut r.stream(), &mut v).is_ok(),
+            std::io::BufRead::read_until(&mut r.stream(), b'>', &mut v).is_ok(),
+            std::io::Read::read_to_end(&mut r.stream(), &mut v).is_ok(),
+            n,
+            v
+        )
+    };
+    if let Some(d) = first_diff(&base, &chunked) {
+        return Verdict::fail(format!("with raw reads {:?}: slice vs buffered(cuts {:?}): {} | cfg={} | slice: {} | chunked: {}", c.raws, cuts, d, cfg_show(c.cfg), show_recs(&base), show_recs(&chunked)));
+    }
+    let asy = {
+        let mut r = Reader::from_reader(ChunkedAsync::new(data, cuts.clone(), c.pend.clone()));
+        apply_cfg(r.config_mut(), c.cfg);
+        let mut buf = Vec::new();
+        drive_raw!(
+            r,
+            len,
+            c.raws,
+            {
+                buf.clear();
+                let e = block_on(r.read_event_into_async(&mut buf));
+                ev_of(&e)
+            },
+            block_on(AsyncReadExt::read_exact(&mut r.stream(), &mut v)).is_ok(),
+            block_on(AsyncBufReadExt::read_until(&mut r.stream(), b'>', &mut v)).is_ok(),
+            block_on(AsyncReadExt::read_to_end(&mut r.stream(), &mut v)).is_ok(),
+            n,
+            v
+        )
+    };
+    if let Some(d) = first_diff(&base, &asy) {
+        return Verdict::fail(format!("with raw reads {:?}: slice vs async(cuts {:?}, pend {:?}): {} | cfg={} | slice: {} | async: {}", c.raws, cuts, c.pend, d, cfg_show(c.cfg), show_recs(&base), show_recs(&asy)));
+    }
+    // the raw reads account for their bytes: position after = position before + bytes obtained
+    let mut v = Verdict::pass(false);
+    let mut prev = 0u64;
+    for rec in &base {
+        if let Ev::Other(m) = &rec.ev {
+            if m.starts_with("raw read ok=true") {
+                v.classes.push("raw-read-between-events");
+            }
+        }
+        if rec.pos < prev {
+            return Verdict::fail(format!("position decreases around a raw read: {}", show_recs(&base)));
+        }
+        prev = rec.pos;
+    }
+    // non-trivial: a raw read that obtained bytes, and a cut inside the bytes it covered or later
+    let raw_done = base.iter().any(|r| matches!(&r.ev, Ev::Other(m) if m.starts_with("raw read ok=true")));
+    v.nontrivial = raw_done && !cuts.is_empty();
     if c.pend.iter().any(|p| *p > 0) {
         v.classes.push("async-with-pending");
     }
@@ -290,6 +431,13 @@ fn run(ctx: &Ctx) {
         Case { input: B(input), cfg, cuts, pend, clear }
     });
     ctx.run_proptest("soup-x-random-schedules", ctx.tier.pick(2_000_000, 12_000_000), strat, check);
+    // raw reads through stream() between events
+    let strat = (gen::soup_strategy(10), 0u8..128, prop::collection::vec(any::<u16>(), 0..8), prop::collection::vec(0u8..3, 0..8), prop::collection::vec((1u8..6, 0u8..9, prop_oneof![6 => Just(0u8), 3 => Just(1u8), 1 => Just(2u8)]), 1..4)).prop_map(|(input, cfg, cs, pend, raws)| {
+        let len = input.len();
+        let cuts = cs.into_iter().map(|c| crate::engine::scale(c, len + 1)).collect();
+        RawCase { input: B(input), cfg, cuts, pend, raws }
+    });
+    ctx.run_proptest("soup-x-raw-reads-through-stream-x-schedules", ctx.tier.pick(400_000, 3_000_000), strat, check_raw);
     // offset and length sweep (see gen.rs): fixed piece sizes around the block sizes, and cuts at
     // and next to the boundaries of the construct
     let (pmax, qmax) = ctx.tier.pick((100u64, 50u64), (200, 100));
@@ -334,7 +482,11 @@ fn run(ctx: &Ctx) {
     );
 }
 
-fn replay(_stage: &str, case: &Value) -> Result<Verdict, String> {
+fn replay(stage: &str, case: &Value) -> Result<Verdict, String> {
+    if stage.contains("raw-reads") {
+        let c: RawCase = serde_json::from_value(case.clone()).map_err(|e| e.to_string())?;
+        return Ok(check_raw(&c));
+    }
     let c: Case = serde_json::from_value(case.clone()).map_err(|e| e.to_string())?;
     Ok(check(&c))
 }
